@@ -82,9 +82,22 @@ def snapshot (s : State) : String :=
   s!"v={v} o={o} p={",".intercalate p}"
 
 /-- the message `S` hands to `send`, rebuilt with the Lean builder model (composed check) -/
-def buildSend (cls tid : Nat) (integ : String) (payload : Bytes) : Option Builder := do
+def parsePayload (payload : String) : Option (List (Nat × Bytes)) :=
+  if payload.contains ':' then
+    (payload.splitOn "+").mapM fun item =>
+      match item.splitOn ":" with
+      | [t, v] => do
+        let ty ← hexNat t
+        let b ← ofHex v
+        some (ty, b)
+      | _ => none
+  else do
+    let b ← ofHex payload
+    some (if b.isEmpty then [] else [(0x8022, b)])
+
+def buildSend (cls tid : Nat) (integ : String) (payload : List (Nat × Bytes)) : Option Builder := do
   let b0 := Builder.new (Spec.interleave cls 1) tid
-  let b1 ← if payload.isEmpty then some b0 else (b0.add (.raw ⟨0x8022, payload⟩)).toOption
+  let b1 ← payload.foldlM (fun (b : Builder) (tv : Nat × Bytes) => (b.add (.raw ⟨tv.1, tv.2⟩)).toOption) b0
   let b2 ← match integ.splitOn ":" with
     | ["n"] => some b1
     | ["1", k] => (b1.addIntegrity MsgFam.refHashes (keyCreds k) .sha1).toOption
@@ -132,7 +145,7 @@ def stepLine (st : State) (op obs : String) : Option (State × String × String)
     let c ← cls.toNat?
     let a ← addrNum to
     let n ← now.toNat?
-    let pl ← ofHex payload
+    let pl ← parsePayload payload
     let bld ← buildSend c t integ pl
     let (s', out) := sendMsg st bld a n
     some (s', s!"{renderOut out} built={toHex bld.build}", if c = 0 then "send-req" else "send-other")
